@@ -29,7 +29,21 @@ class FrameHash:
     def __init__(self, frame):
         self.frame = frame
 
-    def sum(self):
+    # hash_pandas_object returns a Series of row hashes: the ways of reducing it to one number that keep all rows
+    def to_numpy(self, *a, **k):
+        return self
+
+    @property
+    def values(self):
+        return self
+
+    def __getattr__(self, name):
+        if name.startswith('__'):
+            raise AttributeError(name)
+        symx.STUB_GAPS.append(f'hash_pandas_object(...).{name}')
+        raise AttributeError(f'the row-hash recorder does not model Series.{name}')
+
+    def sum(self, *a, **k):
         f = self.frame
         def kind(c, t):
             if str(t) == 'object':
